@@ -34,7 +34,7 @@ def expand(block, tier):
     n = 0
     for case in C07.expand(block, tier):
         n += 1
-        case["delim"] = "::" if n % 3 else ":"
+        case["delim"] = ["::", ":", "::", ": ", " :: ", "::", " : ", ":: "][n % 8]
         case["arg"] = bool(n % 2) and case["dl"] is not None
         yield case
 
